@@ -693,15 +693,27 @@ func (lb *LoadBalancer) proxyRequest(backend *Backend, w http.ResponseWriter, r 
 		statusCode:     http.StatusOK, // Default status code
 	}
 
+	// The reverse proxy aborts the handler with panic(http.ErrAbortHandler) when
+	// the backend's response breaks mid-body. The bookkeeping below must run on
+	// that path too, otherwise the in-flight gauge leaks and the request is never
+	// counted.
+	completed := false
+	defer func() {
+		// Decrement the connection count when done
+		backend.DecrementConnections()
+		lb.metricsCollector.UpdateBackendConnections(backend.Name, backend.GetActiveConnections())
+
+		// Record metrics and handle passive health checks
+		statusCode := rw.statusCode
+		if !completed {
+			statusCode = http.StatusBadGateway // aborted response: a failed exchange with the backend
+		}
+		lb.recordRequestMetrics(backend, statusCode, startTime, r)
+	}()
+
 	// Forward the request to the selected backend
 	backend.ReverseProxy.ServeHTTP(rw, r)
-
-	// Decrement the connection count when done
-	backend.DecrementConnections()
-	lb.metricsCollector.UpdateBackendConnections(backend.Name, backend.GetActiveConnections())
-
-	// Record metrics and handle passive health checks
-	lb.recordRequestMetrics(backend, rw.statusCode, startTime, r)
+	completed = true
 
 	return nil
 }
